@@ -146,7 +146,7 @@ Proof. intros cached cached' fo fi H [A B]. split; [intros c I; apply H; auto | 
 
 Lemma ev_step_inv : forall w e, Inv w -> Inv (fst (ev_step w e)).
 Proof.
-  intros w e [W R F]. destruct e as [c|c|c f|c f|c f|c force|c allow|c allow|]; cbn [ev_step].
+  intros w e [W R F]. destruct e as [c|c|c f|c f|c f|c force|c allow|c allow|c|]; cbn [ev_step].
   - (* ENewContext *)
     destruct (mem c (w_cached w)) eqn:M; cbn [fst]; [split; assumption|].
     split; cbn [w_reg w_pipe w_cached w_folders w_files send].
@@ -200,6 +200,14 @@ Proof.
       apply (fs_ok_weaken (remove_c c (w_cached w))); [|apply rm_folder_fs_ok, F].
       intros x _ H. apply in_remove_c in H. tauto. }
     destruct (delete_folder w c allow) as [[|]|]; cbn [fst]; [exact OK | split; assumption | exact OK].
+  - (* EAtexit *)
+    destruct (mem c (w_final w)); cbn [fst]; [|split; assumption].
+    split; cbn [send rm_folder w_reg w_pipe w_cached w_folders w_files].
+    + exact W.
+    + intros c' I. apply in_remove_c in I. destruct I as [I N].
+      change (0 < pend (send w [QUnregister Folder (fold_name c)]) (fkey c')).
+      rewrite pend_send. cbn [fold_left]. rewrite cnt_step_spares by (apply other_folder_spares; assumption). apply R, I.
+    + apply rm_folder_fs_ok, F.
   - (* ETracker *)
     destruct (w_pipe w) as [|q rest] eqn:P; cbn [fst]; [split; assumption|].
     pose proof (fs_cleanups_ok (w_cached w) (o_del (step_req false (fun _ => false) (w_reg w) q)) _ _ F) as F'.
@@ -246,6 +254,74 @@ Proof.
     intros L. apply (refc_zero_iff r (fkey c) W') in L. lia. }
   destruct (fs_cleanups (pending r) fo fi) as [fo' fi']. cbn [fst snd] in *. subst fo'. f_equal.
   apply nil_of_no_member. intros [c f] H. apply (B c f H).
+Qed.
+
+(* ------------------------------------------------------------------ normal exit *)
+Lemma remove_c_mono : forall c (A B : list nat), (forall x, In x A -> In x B) ->
+  forall x, In x (remove_c c A) -> In x (remove_c c B).
+Proof. intros c A B H x I. apply in_remove_c in I. destruct I as [I N]. apply in_remove_c. split; [apply H, I | exact N]. Qed.
+
+Lemma ev_step_final : forall w e, (forall c, In c (w_cached w) -> In c (w_final w)) ->
+  forall c, In c (w_cached (fst (ev_step w e))) -> In c (w_final (fst (ev_step w e))).
+Proof.
+  intros w e G. destruct e as [c|c|c f|c f|c f|c force|c allow|c allow|c|]; cbn [ev_step].
+  - destruct (mem c (w_cached w)); cbn [fst send w_cached w_final]; [exact G|].
+    intros x [<-|H]; [left; reflexivity | right; apply G, H].
+  - destruct (mem c (w_cached w)); cbn [fst w_cached w_final]; exact G.
+  - exact G.
+  - destruct (mem c (w_folders w)); cbn [fst w_cached w_final]; exact G.
+  - exact G.
+  - destruct (clean_guard w c); cbn [fst send w_cached w_final]; exact G.
+  - destruct (clean_guard w c); cbn [fst]; [|exact G].
+    destruct (delete_folder w c allow) as [[|]|]; cbn [fst send rm_folder w_cached w_final]; try exact G;
+      apply remove_c_mono, G.
+  - destruct (clean_guard w c); cbn [fst]; [|exact G].
+    destruct (delete_folder w c allow) as [[|]|]; cbn [fst rm_folder w_cached w_final]; exact G.
+  - destruct (mem c (w_final w)); cbn [fst send rm_folder w_cached w_final]; [|exact G].
+    apply remove_c_mono, G.
+  - destruct (w_pipe w) as [|q rest]; cbn [fst]; [exact G|].
+    destruct (fs_cleanups (o_del (step_req false (fun _ : deletion => false) (w_reg w) q)) (w_folders w) (w_files w)).
+    cbn [fst w_cached w_final]. exact G.
+Qed.
+
+Lemma run_events_final : forall evs w, (forall c, In c (w_cached w) -> In c (w_final w)) ->
+  forall c, In c (w_cached (run_events w evs)) -> In c (w_final (run_events w evs)).
+Proof.
+  induction evs as [|e t IH]; intros w G; [exact G|]. unfold run_events. cbn [fold_left]. apply IH, ev_step_final, G.
+Qed.
+
+Lemma exit_normally_events : forall w, exit_normally w = run_events w (map EAtexit (w_final w)).
+Proof.
+  intros w. unfold exit_normally, run_events. generalize (w_final w) as l. revert w.
+  intros w l. revert w. induction l as [|a t IH]; intros w; [reflexivity|]. cbn [map fold_left]. apply IH.
+Qed.
+
+(* running the finalizers of the list l: a folder that is still on disk afterwards was on disk
+   before and had no finalizer among those that ran *)
+Lemma atexit_run : forall l w c, In c (w_folders (run_events w (map EAtexit l))) ->
+  In c (w_folders w) /\ (~ In c l \/ ~ In c (w_final w)).
+Proof.
+  induction l as [|a t IH]; intros w c H; [split; [exact H | left; intros []]|].
+  cbn [map] in H. unfold run_events in H. cbn [fold_left] in H. apply IH in H. destruct H as [H1 H2].
+  cbn [ev_step] in H1, H2. destruct (mem a (w_final w)) eqn:M; cbn [fst send rm_folder w_folders w_final] in H1, H2.
+  - apply in_remove_c in H1. destruct H1 as [H1 N]. split; [exact H1|].
+    destruct H2 as [H2|H2]; [left; intros [E|E]; [congruence | exact (H2 E)]|].
+    right. intros I. apply H2. apply in_remove_c. auto.
+  - split; [exact H1|]. destruct (Nat.eq_dec c a) as [->|N].
+    + right. intros I. apply mem_in in I. congruence.
+    + destruct H2 as [H2|H2]; [left; intros [E|E]; [congruence | exact (H2 E)] | right; exact H2].
+Qed.
+
+Lemma exit_leaves_nothing : forall w, Inv w -> (forall c, In c (w_cached w) -> In c (w_final w)) ->
+  w_folders (exit_normally w) = [] /\ w_files (exit_normally w) = [] /\ disk_after_kill (exit_normally w) = ([], []).
+Proof.
+  intros w I G. rewrite exit_normally_events.
+  pose proof (run_events_inv (map EAtexit (w_final w)) w I) as I'.
+  assert (E : w_folders (run_events w (map EAtexit (w_final w))) = []).
+  { apply nil_of_no_member. intros c H. apply atexit_run in H. destruct H as [H1 [H2|H2]]; apply H2;
+      apply G; destruct I as [_ _ [A _]]; apply A, H1. }
+  split; [exact E|]. split; [|apply kill_leaves_nothing, I'].
+  apply nil_of_no_member. intros [c f] H. destruct I' as [_ _ [_ B]]. apply B in H. rewrite E in H. exact H.
 Qed.
 
 (* ------------------------------------------------------------------ order of the try block *)
